@@ -119,6 +119,7 @@ public:
     QXmppTask<TL> trustLevel(const QString &, const QString &keyOwnerJid, const QByteArray &keyId) override
     {
         unsigned oc = vp_c18_jid_code(&keyOwnerJid), kc = vp_c18_key_code(&keyId);
+        vp_c18_limit(oc != C18_UNKNOWN && kc != C18_UNKNOWN);
         unsigned lvl = LvUndecided;
         for (unsigned q = 0; q < NQ; q++) { if (kc == 'A' + q && oc == ownerOf(q)) lvl = g_st.L[q]; }
         auto l = TL(lvl);
